@@ -43,6 +43,7 @@ type gWorld struct {
 	recvT     map[string]consumer.Traces
 	recvL     map[string]consumer.Logs
 	got       map[string][]string // exporter key -> stamps of received payloads
+	later     map[string][]func() string // exporter key -> re-reads the stamp of each payload it was given
 	creates   map[string]int
 	failStart map[string]bool
 	failStop  map[string]bool
@@ -51,7 +52,15 @@ type gWorld struct {
 
 var gW *gWorld
 
-type gComp struct{ key string }
+type gComp struct {
+	key string
+	mut bool
+}
+
+// gMutate (C09 data-flow, second pass): the processors declare MutatesData and stamp the payload they are given IN PLACE,
+// so that a fan-out point that hands one object to a mutating branch and to another branch shows in what the other
+// branch's exporter receives
+var gMutate bool
 
 func (c *gComp) Start(context.Context, component.Host) error {
 	gW.events = append(gW.events, "start "+c.key)
@@ -67,12 +76,12 @@ func (c *gComp) Shutdown(context.Context) error {
 	}
 	return nil
 }
-func (c *gComp) Capabilities() consumer.Capabilities { return consumer.Capabilities{MutatesData: false} }
+func (c *gComp) Capabilities() consumer.Capabilities { return consumer.Capabilities{MutatesData: c.mut} }
 
 func gMk(key string) *gComp {
 	gW.creates[key]++
 	gW.events = append(gW.events, "create "+key)
-	return &gComp{key}
+	return &gComp{key: key}
 }
 
 func gStampT(td ptrace.Traces) string {
@@ -90,6 +99,20 @@ func gAddT(td ptrace.Traces, s string) ptrace.Traces {
 	}
 	n.ResourceSpans().At(0).Resource().Attributes().PutStr("path", gStampT(td)+s)
 	return n
+}
+func gPutT(td ptrace.Traces, s string) ptrace.Traces {
+	if td.ResourceSpans().Len() == 0 {
+		td.ResourceSpans().AppendEmpty()
+	}
+	td.ResourceSpans().At(0).Resource().Attributes().PutStr("path", gStampT(td)+s)
+	return td
+}
+func gPutL(ld plog.Logs, s string) plog.Logs {
+	if ld.ResourceLogs().Len() == 0 {
+		ld.ResourceLogs().AppendEmpty()
+	}
+	ld.ResourceLogs().At(0).Resource().Attributes().PutStr("path", gStampL(ld)+s)
+	return ld
 }
 func gStampL(ld plog.Logs) string {
 	if ld.ResourceLogs().Len() == 0 {
@@ -162,21 +185,37 @@ func gFactories() (map[component.Type]receiver.Factory, map[component.Type]proce
 		processor.WithTraces(func(_ context.Context, s processor.Settings, _ component.Config, n consumer.Traces) (processor.Traces, error) {
 			c := gMk("proc/traces/" + s.ID.String())
 			id := s.ID.Name()
+			if gMutate {
+				c.mut = true
+				return gTC{c, func(ctx context.Context, td ptrace.Traces) error { return n.ConsumeTraces(ctx, gPutT(td, ">"+id)) }}, nil
+			}
 			return gTC{c, func(ctx context.Context, td ptrace.Traces) error { return n.ConsumeTraces(ctx, gAddT(td, ">"+id)) }}, nil
 		}, st),
 		processor.WithLogs(func(_ context.Context, s processor.Settings, _ component.Config, n consumer.Logs) (processor.Logs, error) {
 			c := gMk("proc/logs/" + s.ID.String())
 			id := s.ID.Name()
+			if gMutate {
+				c.mut = true
+				return gLC{c, func(ctx context.Context, ld plog.Logs) error { return n.ConsumeLogs(ctx, gPutL(ld, ">"+id)) }}, nil
+			}
 			return gLC{c, func(ctx context.Context, ld plog.Logs) error { return n.ConsumeLogs(ctx, gAddL(ld, ">"+id)) }}, nil
 		}, st))
 	ef := exporter.NewFactory(gT, cfg,
 		exporter.WithTraces(func(_ context.Context, s exporter.Settings, _ component.Config) (exporter.Traces, error) {
 			k := "exp/traces/" + s.ID.String()
-			return gTC{gMk(k), func(_ context.Context, td ptrace.Traces) error { gW.got[k] = append(gW.got[k], gStampT(td)); return nil }}, nil
+			return gTC{gMk(k), func(_ context.Context, td ptrace.Traces) error {
+				gW.got[k] = append(gW.got[k], gStampT(td))
+				gW.later[k] = append(gW.later[k], func() string { return gStampT(td) })
+				return nil
+			}}, nil
 		}, st),
 		exporter.WithLogs(func(_ context.Context, s exporter.Settings, _ component.Config) (exporter.Logs, error) {
 			k := "exp/logs/" + s.ID.String()
-			return gLC{gMk(k), func(_ context.Context, ld plog.Logs) error { gW.got[k] = append(gW.got[k], gStampL(ld)); return nil }}, nil
+			return gLC{gMk(k), func(_ context.Context, ld plog.Logs) error {
+				gW.got[k] = append(gW.got[k], gStampL(ld))
+				gW.later[k] = append(gW.later[k], func() string { return gStampL(ld) })
+				return nil
+			}}, nil
 		}, st))
 	var copts []connector.FactoryOption
 	if gDirOK("traces", "traces") {
@@ -259,7 +298,7 @@ func gProcID(mode string, pi int, name string) component.ID {
 }
 
 func gBuild(cfg gCfg, mode string) (*Graph, error) {
-	gW = &gWorld{recvT: map[string]consumer.Traces{}, recvL: map[string]consumer.Logs{}, got: map[string][]string{}, creates: map[string]int{},
+	gW = &gWorld{recvT: map[string]consumer.Traces{}, recvL: map[string]consumer.Logs{}, got: map[string][]string{}, later: map[string][]func() string{}, creates: map[string]int{},
 		failStart: map[string]bool{}, failStop: map[string]bool{}, statuses: map[string][]componentstatus.Status{}}
 	rf, pf, ef, cf := gFactories()
 	one := map[component.ID]component.Config{}
@@ -463,6 +502,7 @@ type gCase struct {
 	Cfg       gCfg     `json:"config"`
 	FailStart []string `json:"fail_start,omitempty"`
 	FailStop  []string `json:"fail_stop,omitempty"`
+	Mutate    bool     `json:"mutating_processors,omitempty"`
 }
 
 func gDesc(cfg gCfg) string {
@@ -493,8 +533,30 @@ func gDesc(cfg gCfg) string {
 }
 
 // gRouting: C09 oracle for one configuration.
+// gRouting: the C09 oracle; a configuration that is accepted and has a processor is judged a second time with processors
+// that declare MutatesData and modify their input in place.
 func gRouting(cfg gCfg) (string, string) {
+	sig, what := gRoutingM(cfg, false)
+	if sig != "" {
+		return sig, what
+	}
+	hasProc := false
+	for _, p := range cfg {
+		hasProc = hasProc || (p.Present && len(p.Procs) > 0)
+	}
+	if e, _, _, _ := gReference(cfg, "C09"); e != "" || !hasProc {
+		return "", ""
+	}
+	return gRoutingM(cfg, true)
+}
+
+func gRoutingM(cfg gCfg, mutate bool) (string, string) {
+	gMutate = mutate
+	defer func() { gMutate = false }()
 	desc := gDesc(cfg)
+	if mutate {
+		desc += " [processors mutate in place]"
+	}
 	g, err := gBuild(cfg, "C09")
 	wantErr, want, census, _ := gReference(cfg, "C09")
 	if wantErr != "" {
@@ -533,6 +595,12 @@ func gRouting(cfg gCfg) (string, string) {
 		sort.Strings(gk)
 		if fmt.Sprint(gk) != fmt.Sprint(w) {
 			return "routing-differs", fmt.Sprintf("%s: exporter %s received %v, the configuration prescribes %v", desc, k, gk, w)
+		}
+		// what an exporter was given stays what it was given (another branch must not reach it afterwards)
+		for i, f := range gW.later[k] {
+			if now := f(); now != gW.got[k][i] {
+				return "delivered-data-changed-afterwards", fmt.Sprintf("%s: the payload exporter %s received as %q reads %q after the flow ended", desc, k, gW.got[k][i], now)
+			}
 		}
 	}
 	for k := range gW.got {
@@ -662,7 +730,11 @@ func TestVerif(t *testing.T) {
 		if rf.Replay.Mode == "C10" {
 			sig, what = gLifecycle(rf.Replay.Cfg, rf.Replay.FailStart, rf.Replay.FailStop)
 		} else {
-			sig, what = gRouting(rf.Replay.Cfg)
+			if rf.Replay.Mutate {
+				sig, what = gRoutingM(rf.Replay.Cfg, true)
+			} else {
+				sig, what = gRouting(rf.Replay.Cfg)
+			}
 		}
 		t.Logf("%s %s", sig, what)
 		if sig != "" {
@@ -711,7 +783,7 @@ func TestVerif(t *testing.T) {
 					sig, what := gRouting(cfg)
 					ctx.Nontrivial(vr.Hash(di, fmt.Sprint(cfg)))
 					if sig != "" {
-						ctx.Violate(sig, what, gCase{Mode: "C09", Cfg: cfg, Dirs: di})
+						ctx.Violate(sig, what, gCase{Mode: "C09", Cfg: cfg, Dirs: di, Mutate: strings.Contains(what, "[processors mutate in place]")})
 						ctx.Outcome(strings.SplitN(sig, ":", 2)[0])
 					} else {
 						ctx.R.Traces++
